@@ -4,6 +4,7 @@ use crate::explore::*;
 use crate::lw::*;
 use crate::lwprops::*;
 use crate::report::Summary;
+use crate::sweep::{Acc, Unit};
 use crate::PropRun;
 use serde_json::json;
 use std::sync::Arc;
@@ -245,6 +246,75 @@ fn c05(quick: bool) -> PropRun {
 }
 
 // ------------------------------------------------------------------------------------------------
+/// A TimeSensitive packet waits in the send queue of a real sending `HalfConnection` behind a packet that the peer's receive allocation
+/// keeps back, for exactly `wait` steps, for every `wait` from 1 to 1100 (70 000): the harness plays the receiver, acknowledges the frame of
+/// the first packet at once (so nothing is retransmitted) and moves its packet window - which releases the allocation - `wait` steps later.
+/// However long the packet has waited (counters of steps wrap at 2^8, 2^16), it is stale by then and must never reach the wire.
+fn ts_wait_case(wait: usize, dt: u64) -> (Vec<Violation>, u64, Option<String>) {
+    use uflow::verif::frame::{AckFrame, AckGroup, Frame}; use uflow::verif::Serialize;
+    let r = crate::sweep::guarded(|| {
+        let mut v = Vec::new();
+        uflow::verif::set_time_ms(0); uflow::verif::seed(12); uflow::verif::set_fuel(5_000_000);
+        let cfg = LwCfg { pwin: 4096, fwin: 4096, rx_alloc: [1_000_000, 1000], ..LwCfg::small() };
+        let mut hc = uflow::verif::HalfConnection::new(cfg.half(0));
+        let (p0, p1, ts, ts2, un) = (payload(0, 0, 0, 1000), payload(0, 0, 1, 600), payload(0, 0, 2, 50), payload(0, 1, 0, 51), payload(0, 0, 3, 52));
+        hc.send(p0.clone(), 0, SendMode::Reliable); hc.send(p1.clone(), 0, SendMode::Reliable); hc.send(ts.clone(), 0, SendMode::TimeSensitive); hc.send(ts2.clone(), 1, SendMode::TimeSensitive);
+        let mut now = 0u64; let mut seen_p1 = None; let mut h = 0xcbf29ce484222325u64;
+        for step in 0..wait + 40 {
+            let mut fs = FS(vec![]); hc.flush(&mut fs);
+            for bytes in fs.0.iter() {
+                if let Some(Frame::DataFrame(df)) = Frame::read(bytes) {
+                    for dg in df.datagrams.iter() {
+                        if dg.data[..] == ts[..] || dg.data[..] == ts2[..] { v.push(viol("C12.ts-late", "C12.ts-late:after-waiting-behind-a-blocked-packet".into(), format!("a TimeSensitive packet handed to send() before step 0 was transmitted in the flush of step {} (it waited in the send queue behind a packet held back by the peer's receive allocation for {} steps of {} ms)", step, wait, dt))); }
+                        if dg.data[..] == p1[..] && seen_p1.is_none() { seen_p1 = Some(step); }
+                    }
+                    // the receiver acknowledges every frame at once; its packet window moves past the first packet only after `wait` steps
+                    hc.handle_ack_frame(AckFrame { frame_window_base_id: df.sequence_id.wrapping_add(1), packet_window_base_id: if step >= wait { cfg.pbase[0] + 2 } else { cfg.pbase[0] }, frame_acks: vec![AckGroup { base_id: df.sequence_id, bitfield: 1, nonce: df.nonce }] });
+                }
+            }
+            if step == wait { hc.handle_ack_frame(AckFrame { frame_window_base_id: hc.verif_probe().tx_frame_next, packet_window_base_id: cfg.pbase[0] + 1, frame_acks: vec![] }); }
+            if step == 1 { hc.send(un.clone(), 0, SendMode::Unreliable); }
+            now += dt; uflow::verif::set_time_ms(now);
+            hc.step();
+            h = fnv(h, fs.0.len() as u64);
+        }
+        uflow::verif::set_fuel(u64::MAX);
+        // witness: the blocked packet did go out once the allocation was released (otherwise the case shows nothing)
+        if seen_p1.map_or(true, |s| s < wait) { v.push(viol("C12.machinery", "C12.machinery:ts-wait".into(), format!("harness expectation failed: the blocked packet was first transmitted in step {:?}, the allocation was released in step {}", seen_p1, wait))); }
+        (v, h ^ seen_p1.unwrap_or(0) as u64)
+    });
+    uflow::verif::set_fuel(u64::MAX);
+    match r { Ok((v, h)) => (v, h, None), Err(p) => (vec![], 0xDEAD, Some(p)) }
+}
+
+pub fn ts_wait_units(quick: bool) -> Vec<Unit> {
+    let mut units: Vec<Unit> = Vec::new();
+    let max_wait = if quick { 1100usize } else { 70_000 };
+    for dt in [4u64, 16, 100] {
+        for block in 0..(max_wait + 99) / 100 {
+            units.push(Box::new(move |acc: &mut Acc| {
+                for wait in (block * 100 + 1)..=((block + 1) * 100).min(max_wait) {
+                    if !quick && wait > 1100 && !(wait % 256 <= 1 || wait % 256 == 255) { continue; }
+                    let (v, h, panic) = ts_wait_case(wait, dt);
+                    acc.evals += 1; acc.transitions += wait as u64 + 40; acc.outcomes.insert(h);
+                    if let Some(p) = panic { acc.panics += 1; acc.violation(format!("case:tswait:{}:{}", wait, dt), aborted_by_panic_c12(&p)); }
+                    for x in v { acc.violation(format!("case:tswait:{}:{}", wait, dt), x); }
+                    if wait == 300 { acc.sample(format!("TimeSensitive packet waiting {} steps of {} ms behind a packet blocked by the peer's receive allocation", wait, dt)); }
+                }
+            }));
+        }
+    }
+    units
+}
+fn aborted_by_panic_c12(p: &str) -> Violation { viol("C12.aborted-by-panic", format!("C12.aborted-by-panic:{}", p.rsplit(" @ ").next().unwrap_or("")), format!("the library panicked: {}", p)) }
+pub fn ts_wait_replay(case: &str) -> Vec<Violation> {
+    let f: Vec<&str> = case.strip_prefix("case:tswait:").unwrap_or("").split(':').collect();
+    if f.len() != 2 { return vec![]; }
+    let (v, _, p) = ts_wait_case(f[0].parse().unwrap_or(1), f[1].parse().unwrap_or(4));
+    if let Some(p) = p { println!("PANIC inside uflow: {}", p); }
+    v
+}
+
 fn c12(quick: bool) -> PropRun {
     let oracles = O_C12 | O_C12L;
     let grid = cfg_grid(quick);
@@ -254,20 +324,8 @@ fn c12(quick: bool) -> PropRun {
         let small = scripts_upto(2, &[0, 1], &MODES, &[40, 2000, 3000], &[0, 1]);
         for s in small.iter() { let mut env = env_live(6); env.flush_choice = true; scs.push(spec("C12.all", &grid[0], s, env, 2, oracles)); }
     }
-    // a TimeSensitive packet waits in the send queue behind a packet that the peer's receive allocation keeps back, for every number of
-    // steps from 1 to 600 (1100): the peer's application steps only every n-th round, so the allocation is released n rounds later.
-    // However long it waits (counters of steps wrap at 2^8, 2^16), it is stale by then and must never be transmitted.
-    {
-        use SendMode::*;
-        let si = Arc::new(ScriptInfo::new(vec![send(0, 0, 0, Reliable, 1000), send(0, 0, 0, Reliable, 600), send(0, 0, 0, TimeSensitive, 50), send(0, 0, 1, TimeSensitive, 51), send(1, 0, 0, Unreliable, 52)]));
-        for n in 1..=(if quick { 600usize } else { 1100 }) {
-            let cfg = LwCfg { pwin: 4096, fwin: 4096, rx_alloc: [1_000_000, 1000], step_every: [1, n], ..LwCfg::small() };
-            let env = LwEnv { fates: FATES_NONE, deltas: &[4], dev_rounds: 0, dev_start: 0, max_rounds: 3 * n + 400, skip_choice: false, flush_choice: false, blackouts: &[], stop_when_idle: false, fair_delta: 4, slow_after: usize::MAX, slow_delta: 250, fuel: 2_000_000, shifts: &[] };
-            scs.push(spec("C12.ts-behind-blocked-head", &cfg, &si, env, 0, O_C12));
-        }
-    }
     for sp in crate::props_ew::c12_api_specs(quick) { scs.push(crate::eprops::ew_scenario(sp)); }
-    PropRun { level: "model_checking", scenarios: scs, units: vec![], replay_case: None, summary: lw_summary(
+    PropRun { level: "model_checking", scenarios: scs, units: ts_wait_units(quick), replay_case: Some(ts_wait_replay), summary: lw_summary(
         "transmissions per (packet id, fragment id) read from the wire, acknowledgements from the frames handed to the sender; Unreliable/TimeSensitive at most once, TimeSensitive never first transmitted after the step following send(), Persistent/Reliable never retransmitted after a processed acknowledgement or a packet-window base beyond the packet, and at the horizon every such fragment is acknowledged, moved past or still scheduled",
         json!({"d": d, "fates": "deliver/drop/dup/delay1/delay3 on data and ack frames", "flush_budgets": "2 MB/s, 20 kB/s, 5 kB/s"}),
         A_LW) }
